@@ -53,14 +53,22 @@ func DisjointCollection(g *gen.G, withEmpties bool) geom.Geometry {
 			shapes = append(shapes, s)
 		}
 	}
-	if withEmpties && g.R.Chance(1, 3) {
-		e := gen.EmptyOf(gen.AllTypes[g.R.Intn(7)], geom.DimXY)
-		k := g.R.Intn(len(ms) + 1)
-		ms = append(ms[:k], append([]geom.Geometry{e}, ms[k:]...)...)
+	if withEmpties && g.R.Chance(1, 2) {
+		for ne := g.R.Range(1, 2); ne > 0; ne-- {
+			e := gen.EmptyOf(gen.AllTypes[g.R.Intn(7)], geom.DimXY)
+			k := g.R.Intn(len(ms) + 1)
+			ms = append(ms[:k], append([]geom.Geometry{e}, ms[k:]...)...)
+		}
 	}
-	if g.R.Chance(1, 5) && len(ms) > 0 { // nest
-		inner := geom.NewGeometryCollection(ms[:1]).AsGeometry()
-		ms = append([]geom.Geometry{inner}, ms[1:]...)
+	// nest: wrap random contiguous runs of members (empties included) into sub-collections, up to depth 3, so
+	// that an empty member can sit next to a non-empty one at any level
+	if g.R.Chance(2, 5) && len(ms) > 0 {
+		for rounds := g.R.Range(1, 3); rounds > 0; rounds-- {
+			i := g.R.Intn(len(ms))
+			j := i + 1 + g.R.Intn(len(ms)-i)
+			inner := geom.NewGeometryCollection(append([]geom.Geometry(nil), ms[i:j]...)).AsGeometry()
+			ms = append(ms[:i], append([]geom.Geometry{inner}, ms[j:]...)...)
+		}
 	}
 	return geom.NewGeometryCollection(ms).AsGeometry()
 }
